@@ -236,6 +236,7 @@ type c33World struct {
 	lastRes   int
 	noValid   bool
 	open      bool
+	lockDead  bool // the pending lists' locks are held for ever
 }
 
 func frame(payload []byte) []byte {
@@ -279,6 +280,9 @@ func (crashEngine) run(ctx *simrt.Ctx) *simrt.Violation {
 		if v := n.check(); v != nil {
 			return v
 		}
+		if w.lockDead {
+			return w.dead("pending-list-lock", "after %q the locks of the pending light-block / block-request lists could not be taken for 10 virtual seconds: a holder never released them, every later light block and the pending loop wait for ever", sc.Ops[i].K)
+		}
 	}
 	ctx.CurOp = len(sc.Ops)
 	return w.probes()
@@ -303,6 +307,9 @@ func (w *c33World) observe(what string) {
 	}
 	sort.Strings(ev)
 	pb, pr := n.bsim.Pending()
+	if pb < 0 {
+		w.lockDead = true
+	}
 	w.ctx.Logf("%s t=%v pend=%d/%d res=%d %s", what, now(), pb, pr, w.lastRes, strings.Join(ev, "; "))
 }
 
